@@ -227,9 +227,12 @@ func (r *rd) cur() types.Currency {
 	hi := r.u64()
 	return types.NewCurrency(lo, hi)
 }
-func (r *rd) h32() (h [32]byte)   { copy(h[:], r.take(32)); return }
-func (r *rd) sig() (s [64]byte)   { copy(s[:], r.take(64)); return }
-func (r *rd) out() types.SiacoinOutput { v := r.cur(); return types.SiacoinOutput{Value: v, Address: r.h32()} }
+func (r *rd) h32() (h [32]byte) { copy(h[:], r.take(32)); return }
+func (r *rd) sig() (s [64]byte) { copy(s[:], r.take(64)); return }
+func (r *rd) out() types.SiacoinOutput {
+	v := r.cur()
+	return types.SiacoinOutput{Value: v, Address: r.h32()}
+}
 
 func (r *rd) contract() (fc types.V2FileContract) {
 	fc.Capacity = r.u64()
